@@ -195,14 +195,22 @@ class FromArray(IO):
             # For non-numpy arrays with region, we need custom graph generation
             # to apply the offset slices
             if region is not None:
+                from dask.utils import has_keyword
+
                 keys = list(product([self._name], *(range(len(bds)) for bds in self.chunks)))
+                # Same calling convention as graph_from_arraylike: a plain
+                # ``getitem(a, index)`` callable is never handed asarray/lock.
+                if has_keyword(getitem, "asarray") and has_keyword(getitem, "lock"):
+                    extra = (self.asarray_arg, lock)
+                else:
+                    extra = ()
                 if self.inline_array:
-                    dsk = {k: (getitem, self.array, slc, self.asarray_arg, lock) for k, slc in zip(keys, slices)}
+                    dsk = {k: (getitem, self.array, slc, *extra) for k, slc in zip(keys, slices)}
                 else:
                     # Put array in graph once, reference by key
                     arr_key = ("array-" + self._name,)
                     dsk = {arr_key: self.array}
-                    dsk.update({k: (getitem, arr_key, slc, self.asarray_arg, lock) for k, slc in zip(keys, slices)})
+                    dsk.update({k: (getitem, arr_key, slc, *extra) for k, slc in zip(keys, slices)})
             else:
                 dsk = graph_from_arraylike(
                     self.array,
